@@ -159,6 +159,10 @@ def tasks(tier, seed):
             t.append(dict(part='setvalues', skeleton=sk, renaming=list(r), tier=tier))
     for lo in range(0, 64, 4):
         t.append(dict(part='exotic', tier=tier, lo=lo, hi=lo + 4, fresh=True))
+    # the file of saved iterations as an input of estimate(): hand-written files (subsets of names x line orders) and round trips
+    for sk in ESTIMABLE:
+        for r in (rn if tier == 'thorough' else rn[::3]):
+            t.append(dict(part='iterfile', skeleton=sk, renaming=list(r), tier=tier))
     return t
 
 
@@ -190,6 +194,8 @@ def run_task(task):
         _setvalues(task, rec)
     elif task['part'] == 'exotic':
         _exotic(task, rec)
+    elif task['part'] == 'iterfile':
+        _iterfile(task, rec)
     return rec.result()
 
 
@@ -236,6 +242,9 @@ def _diff_one(sk, r, tier, rec):
                 bad('log-likelihood-changes-under-renaming', f'LL={ll!r} expected {want_ll!r}', expected=want_ll, observed=ll)
             if not all(close(gmap[o], w, 1e-8) for o, w in zip(free_orig, want_g)):
                 bad('gradient-entry-attached-to-wrong-name', f'gradient by original name {gmap} expected {dict(zip(free_orig, want_g))}')
+            # values REPORTED under names by a live model: the file of saved iterations (lines 'name = value', written by
+            # every evaluation with derivatives of a model that saves its iterations) and the one-line report of a vector
+            _written_values(sk, mapping, inv, variant, spec, db, free_orig, tier, bad, rec, key if nontriv else None)
             # bounds by name and by position
             for i, nm in enumerate(names):
                 o = inv[nm]
@@ -313,6 +322,83 @@ def _diff_one(sk, r, tier, rec):
                 if not all(close(a, w) for a, w in zip(got, want)):
                     bad('partial-dictionary-overrides-wrong-parameters', f'betas={dct}: {got} expected {want}', mask=mask)
     rec.sample(dict(skeleton=sk, renaming=mapping))
+
+
+THIRD = {'p0': -0.375, 'p1': 1.5, 'p2': 0.75}     # a third point (no permutation of one point is another point)
+
+
+class _scratch:
+    """Private empty working directory (the file of saved iterations is written in / read from the working directory)."""
+
+    def __enter__(self):
+        import tempfile
+        self.back = os.getcwd()
+        self.dir = tempfile.mkdtemp(prefix='c03_', dir='/dev/shm' if os.path.isdir('/dev/shm') else None)
+        os.chdir(self.dir)
+        return self
+
+    def __exit__(self, *a):
+        import shutil
+        os.chdir(self.back)
+        shutil.rmtree(self.dir, ignore_errors=True)
+        return False
+
+
+def read_iter_file(file_name):
+    """name -> value as written by the library: lines 'name = value'."""
+    out = {}
+    with open(file_name, encoding='utf-8') as f:
+        for line in f:
+            if line.strip():
+                name, _, value = line.rstrip('\n').rpartition(' = ')
+                out[name] = float(value)
+    return out
+
+
+def write_iter_file(file_name, pairs):
+    with open(file_name, 'w', encoding='utf-8') as f:
+        for name, value in pairs:
+            f.write(f'{name} = {value!r}\n')
+
+
+def _written_values(sk, mapping, inv, variant, spec, db, free_orig, tier, bad, rec, key):
+    """A model that saves its iterations is evaluated (with derivatives) at a sequence of points given in the library's own
+    order of the free parameters.  After every evaluation the file __<model>.iter holds, NAME BY NAME, one of the points
+    evaluated so far (the only one after the first evaluation; which one is kept later is not this property's business),
+    for exactly the free parameters.  report_array(x) pairs the same vector with names."""
+    import numpy as np
+    from vf.engine import make_biogeme
+    pts = [POINT, ORIG, THIRD]
+    seqs = list(itertools.permutations(range(3))) if tier == 'thorough' else [(0, 1), (1, 0)]
+    for seq in seqs:
+        try:
+            with _scratch():
+                bi = make_biogeme(db, R.Builder(spec).build(rename(variant, mapping)), save_iterations=True)
+                bi.modelName = 'c03w'
+                names = list(bi.free_beta_names)
+                seen = []
+                for step, pi in enumerate(seq):
+                    pt = {o: pts[pi][o] for o in free_orig}
+                    seen.append(pt)
+                    x = np.array([pt[inv[nm]] for nm in names], dtype=float)
+                    bi.calculate_likelihood_and_derivatives(x, scaled=False, hessian=False, bhhh=False)
+                    on_file = read_iter_file('__c03w.iter')
+                    got = {inv.get(nm, nm): v for nm, v in on_file.items()}
+                    rec.case(('written',) + key[1:] + (seq[:step + 1],) if key else None, (seq[:step + 1], sorted(on_file.items())),
+                             outcome=('written', step, len(free_orig)))
+                    if got not in seen or (step == 0 and got != pt):
+                        bad('iteration-file-values-under-wrong-names',
+                            f'after evaluating at {[{mapping[o]: v for o, v in p.items()} for p in seen]} (by name) the file of saved '
+                            f'iterations holds {on_file}', seq=list(seq))
+                        break
+                if seq == seqs[0]:
+                    rep = bi.report_array(x)
+                    got = dict(item.rpartition('=')[::2] for item in rep.split(', '))
+                    want = {nm: f'{pt[inv[nm]]:.2g}' for nm in names}
+                    if got != want:
+                        bad('report_array-values-under-wrong-names', f'report_array of the point {want} (by name): {rep!r}')
+        except Exception as e:
+            bad(f'iteration-file-raised-{type(e).__name__}', f'sequence {seq}: {str(e)[:200]}', seq=list(seq))
 
 
 def _history(task, rec):
@@ -574,8 +660,9 @@ def _subformulas(expr):
     return out[:6]
 
 
-def newton(term, free, fixedvals, start, iters=60):
+def newton(term, free, fixedvals, start, iters=60, rows=None):
     """Reference optimum of sum_rows term by Newton's method on exact hyper-dual derivatives."""
+    rows = ROWS if rows is None else rows
     x = dict(start)
     n = len(free)
     for _ in range(iters):
@@ -583,7 +670,7 @@ def newton(term, free, fixedvals, start, iters=60):
         params.update(x)
         g = [0.0] * n
         h = [[0.0] * n for _ in range(n)]
-        for row in ROWS:
+        for row in rows:
             _, gi, hi = R.evaluate_hd(term, free, row, params)
             for i in range(n):
                 g[i] += gi[i]
@@ -611,6 +698,152 @@ def solve(a, b):
     for i in reversed(range(n)):
         x[i] = (m[i][n] - sum(m[i][k] * x[k] for k in range(i + 1, n))) / m[i][i]
     return x
+
+
+def matinv(a):
+    n = len(a)
+    cols = [solve(a, [1.0 if i == j else 0.0 for i in range(n)]) for j in range(n)]
+    return [[cols[j][i] for j in range(n)] for i in range(n)]
+
+
+def matmul(a, b):
+    return [[sum(a[i][k] * b[k][j] for k in range(len(b))) for j in range(len(b[0]))] for i in range(len(a))]
+
+
+def ref_stats(term, free, params, rows=None):
+    """Rao-Cramer (-H^-1) and robust (sandwich) variance-covariance matrices of the reference at ``params``."""
+    rows = ROWS if rows is None else rows
+    n = len(free)
+    h = [[0.0] * n for _ in range(n)]
+    bh = [[0.0] * n for _ in range(n)]
+    for row in rows:
+        _, gi, hi = R.evaluate_hd(term, free, row, params)
+        for i in range(n):
+            for j in range(n):
+                h[i][j] += hi[i][j]
+                bh[i][j] += gi[i] * gi[j]
+    v = matinv([[-x for x in row] for row in h])
+    return v, matmul(v, matmul(bh, v))
+
+
+RESAMPLES = [[0, 1, 2, 3, 4, 5], [5, 4, 3, 2, 1, 0], [5, 1, 2, 3, 4, 5], [0, 0, 2, 3, 4, 4]]   # answers of the owned resampler
+
+
+def _statistics_by_name(res, canonical, free_orig, fixedvals, want, inv, bad):
+    params = dict(fixedvals)
+    params.update(want)
+    try:
+        v, rob = ref_stats(canonical, free_orig, params)
+        pos = {o: i for i, o in enumerate(free_orig)}
+        scale_v = max(abs(x) for row in v for x in row)
+        scale_r = max(abs(x) for row in rob for x in row)
+
+        def near(a, w, scale):
+            return abs(float(a) - w) <= 5e-3 * abs(w) + 1e-4 * scale
+
+        wrong = []
+        for beta in res.data.betas:
+            i = pos[inv[beta.name]]
+            if not near(beta.stdErr, v[i][i] ** 0.5, scale_v ** 0.5):
+                wrong.append(f'std err of {beta.name}: {beta.stdErr}, expected {v[i][i] ** 0.5}')
+            if not near(beta.robust_stdErr, rob[i][i] ** 0.5, scale_r ** 0.5):
+                wrong.append(f'robust std err of {beta.name}: {beta.robust_stdErr}, expected {rob[i][i] ** 0.5}')
+        tv, tr = res.get_var_covar(), res.get_robust_var_covar()
+        table = res.get_estimated_parameters(only_robust=False)
+        for n1 in tv.index:
+            i = pos[inv[n1]]
+            if not near(table.loc[n1, 'Std err'], v[i][i] ** 0.5, scale_v ** 0.5) or \
+                    not near(table.loc[n1, 'Rob. Std err'], rob[i][i] ** 0.5, scale_r ** 0.5):
+                wrong.append(f'table row {n1}: std err {table.loc[n1, "Std err"]}, robust {table.loc[n1, "Rob. Std err"]}; expected '
+                             f'{v[i][i] ** 0.5}, {rob[i][i] ** 0.5}')
+            for n2 in tv.columns:
+                j = pos[inv[n2]]
+                if not near(tv.loc[n1, n2], v[i][j], scale_v):
+                    wrong.append(f'covariance ({n1},{n2}): {tv.loc[n1, n2]}, expected {v[i][j]}')
+                if not near(tr.loc[n1, n2], rob[i][j], scale_r):
+                    wrong.append(f'robust covariance ({n1},{n2}): {tr.loc[n1, n2]}, expected {rob[i][j]}')
+        if sorted(tv.index) != sorted(b_.name for b_ in res.data.betas) or len(res.data.betas) != len(free_orig):
+            wrong.append(f'rows of the variance-covariance table {list(tv.index)}')
+        if wrong:
+            bad('statistic-attached-to-wrong-parameter', '; '.join(wrong[:4]))
+    except Exception as e:
+        bad(f'statistics-raised-{type(e).__name__}', str(e)[:200])
+
+
+def _sensitivity_draws(res, vals, est_names, bad):
+    import numpy as np
+    import numpy.random as npr
+    saved = npr.multivariate_normal
+
+    def answer(mean, cov, size=None, *a, **kw):
+        mean = np.asarray(mean, dtype=float)
+        return np.array([mean + 0.5 * (k + 1) for k in range(int(size))])
+
+    npr.multivariate_normal = answer
+    try:
+        for size in (1, 3):
+            for k in range(1, len(est_names) + 1):
+                for sel in itertools.permutations(est_names, k):
+                    draws = res.get_betas_for_sensitivity_analysis(list(sel), size=size, use_bootstrap=False)
+                    want_draws = [{nm: float(vals[nm]) + 0.5 * (d + 1) for nm in sel} for d in range(size)]
+                    got_draws = [{nm: float(v) for nm, v in d.items()} for d in draws]
+                    if len(got_draws) != size or any(sorted(g) != sorted(w) or any(abs(g[nm] - w[nm]) > 1e-12 for nm in w)
+                                                     for g, w in zip(got_draws, want_draws)):
+                        bad('sensitivity-draws-attached-to-wrong-name',
+                            f'get_betas_for_sensitivity_analysis({list(sel)}, size={size}, use_bootstrap=False) with the source of draws '
+                            f'answering estimate + (k+1)/2: {got_draws}; estimates {vals}')
+                        return
+    except Exception as e:
+        bad(f'sensitivity-draws-raised-{type(e).__name__}', str(e)[:200])
+    finally:
+        npr.multivariate_normal = saved
+
+
+def _bootstrap_by_name(sk, oi, mapping, inv, spec, canonical, free_orig, fixedvals, want, est_names, bad):
+    from vf.engine import make_db, make_biogeme
+    try:
+        db = make_db(ROWS, COLS)
+        bb = make_biogeme(db, R.Builder(spec).build(rename(SKELETONS[sk][oi], mapping)))
+        bb.modelName = 'c03b'
+        bb.bootstrap_samples = len(RESAMPLES)
+        asked = []
+
+        def answer(size=None):
+            idx = RESAMPLES[len(asked) % len(RESAMPLES)]
+            asked.append(size)
+            return bb.database.data.iloc[idx].reset_index(drop=True)
+
+        bb.database.sample_with_replacement = answer
+        res = bb.estimate(run_bootstrap=True)
+        if len(asked) != len(RESAMPLES):
+            bad('bootstrap-resampler-not-asked-as-expected', f'{len(asked)} samples asked, {len(RESAMPLES)} requested')
+            return
+        refs = [newton(canonical, free_orig, fixedvals, dict(want), rows=[ROWS[i] for i in idx]) for idx in RESAMPLES]
+
+        def near(a, w):
+            return abs(a - w) <= 1e-4 * max(1.0, abs(w))
+
+        for k in range(1, len(est_names) + 1):
+            for sel in itertools.permutations(est_names, k):
+                draws = res.get_betas_for_sensitivity_analysis(list(sel))
+                got = [{nm: float(v) for nm, v in d.items()} for d in draws]
+                if len(got) != len(RESAMPLES) or any(sorted(g) != sorted(sel) or not all(near(g[nm], ref[inv[nm]]) for nm in sel)
+                                                     for g, ref in zip(got, refs)):
+                    bad('bootstrap-estimates-attached-to-wrong-name',
+                        f'get_betas_for_sensitivity_analysis({list(sel)}) after a bootstrap on the samples (rows) {RESAMPLES}: {got}; '
+                        f'reference estimates on these samples (by original name) {refs}')
+                    return
+        # bootstrap standard error of each parameter = spread of ITS estimates over the samples
+        m = len(refs)
+        for beta in res.data.betas:
+            o = inv[beta.name]
+            mean = sum(ref[o] for ref in refs) / m
+            sd = (sum((ref[o] - mean) ** 2 for ref in refs) / (m - 1)) ** 0.5
+            if abs(beta.bootstrap_stdErr - sd) > 5e-3 * sd + 5e-4:
+                bad('statistic-attached-to-wrong-parameter', f'bootstrap std err of {beta.name}: {beta.bootstrap_stdErr}, expected {sd}')
+                return
+    except Exception as e:
+        bad(f'bootstrap-raised-{type(e).__name__}', str(e)[:200])
 
 
 def _estimate(task, rec):
@@ -686,6 +919,131 @@ def _estimate(task, rec):
             for nm, v in after.items():
                 if abs(v - vals[nm]) > 0:
                     bad('starting-values-after-estimation-differ-from-estimates', f'{nm}: {v} vs {vals[nm]}')
+            # statistics attached to the parameter: standard errors and (robust) variance-covariance entries BY NAME
+            _statistics_by_name(res, canonical, free_orig, fixedvals, want, inv, bad)
+            # draws of the estimators for sensitivity analysis, requested by name (every ordered non-empty selection); the
+            # random source is owned: the k-th draw it answers is the vector of means it was asked for, shifted by (k+1)/2
+            _sensitivity_draws(res, vals, est_names, bad)
+            # the same request served from bootstrap estimates; the resampling is owned (a menu of row multisets answered in
+            # turn), the reference re-estimates on each answered sample
+            _bootstrap_by_name(sk, oi, mapping, inv, spec, canonical, free_orig, fixedvals, want, est_names, bad)
+
+
+def _iterfile(task, rec):
+    """The file of saved iterations as an INPUT: estimate() of a model that saves its iterations starts from the values found
+    in the file __<model>.iter of the working directory, matched by name.
+
+    (a) hand-written files: every subset of the model's parameter names (fixed ones included) x every order of the lines;
+        the initial log likelihood reported by the estimation is the reference's at {named free parameter: value on file,
+        other free parameter: its own starting value, fixed parameter: its given value (for a NAMED fixed parameter the
+        value on file is accepted too, as for change_init_values)}; the estimates are the reference's whatever the start;
+        the file left behind holds the estimates name by name.
+    (b) round trip: a first model writes the file while it is estimated, a second model (same names, other term order, same
+        model name) is estimated in the same directory: it starts, name by name, from the values on file."""
+    from vf.engine import make_db, make_biogeme
+    sk, r, tier = task['skeleton'], tuple(task['renaming']), task['tier']
+    mapping = dict(zip(['p0', 'p1', 'p2'], r))
+    inv = {n: o for o, n in mapping.items()}
+    canonical = SKELETONS[sk][0]
+    origs = ['p0', 'p1', 'p2']
+    sts = [('free', 'free', 'free'), ('bounded', 'free', 'fixed'), ('free', 'fixed', 'bounded')]
+    if tier == 'thorough':
+        sts = status_assignments('quick')
+    orders = list(range(len(SKELETONS[sk])))
+    db = make_db(ROWS, COLS)
+    for statuses in sts:
+        st = dict(zip(origs, statuses))
+        free_orig = [o for o in origs if st[o] != 'fixed']
+        fixed_orig = [o for o in origs if st[o] == 'fixed']
+        fixedvals = {o: ORIG[o] for o in fixed_orig}
+        want = newton(canonical, free_orig, fixedvals, {o: ORIG[o] for o in free_orig})
+        spec = spec_for(mapping, statuses)
+        case = dict(part='iterfile', skeleton=sk, renaming=list(r), tier=tier)
+
+        def bad(clause, what):
+            rec.violation(f'C03|{clause}|iterfile:{sk}', what + f' [renaming {mapping}, statuses {st}]', case)
+
+        def model(oi):
+            b = make_biogeme(db, R.Builder(spec).build(rename(SKELETONS[sk][oi], mapping)), save_iterations=True)
+            b.modelName = 'c03r'
+            return b
+
+        def file_ok(on_file, what):
+            got = {inv.get(nm, nm): v for nm, v in on_file.items()}
+            if sorted(got) != sorted(free_orig) or not all(abs(got[o] - want[o]) <= 1e-4 * max(1.0, abs(want[o])) for o in free_orig):
+                bad('iteration-file-values-under-wrong-names', f'{what}: the file left by the estimation holds {on_file}; estimates '
+                    f'expected (by original name) {want}')
+                return False
+            return True
+
+        # ---- (a) hand-written files
+        for oi in ((orders[-1],) if tier == 'quick' else (orders[0], orders[-1])):
+            for mask in range(8):
+                named = [o for i, o in enumerate(origs) if mask >> i & 1]
+                stop = False
+                for lines in itertools.permutations(named):
+                    pairs = [(mapping[o], POINT[o] + 0.125) for o in lines]
+                    key = ('file', sk, r, statuses, oi, lines)
+                    try:
+                        with _scratch():
+                            write_iter_file('__c03r.iter', pairs)
+                            res = model(oi).estimate()
+                            on_file = read_iter_file('__c03r.iter')
+                    except Exception as e:
+                        rec.case(key, ('raised', type(e).__name__), outcome='raised')
+                        bad(f'estimate-from-file-raised-{type(e).__name__}', f'file {pairs}: {str(e)[:200]}')
+                        stop = True
+                        break
+                    init = float(res.data.initLogLike)
+                    rec.case(key, (sk, r, statuses, oi, lines, round(init, 8)), outcome=('file', len(named), len(fixed_orig)))
+                    start = {o: (POINT[o] + 0.125 if o in named else ORIG[o]) for o in free_orig}
+                    allowed = []
+                    for combo in itertools.product(*[[ORIG[o]] + ([POINT[o] + 0.125] if o in named else []) for o in fixed_orig]):
+                        params = dict(start)
+                        params.update(dict(zip(fixed_orig, combo)))
+                        allowed.append(sum(ref_values(canonical, params)))
+                    if not close(init, allowed[0]):
+                        if any(close(init, w) for w in allowed[1:]):
+                            rec.count('file_overrides_named_fixed_parameter')
+                            continue        # the other reading for a named fixed parameter: the optimum is another one
+                        bad('iteration-file-read-not-by-name', f'file {pairs} (lines in this order): the estimation starts at log likelihood '
+                            f'{init!r}; expected {allowed[0]!r} (free parameters at {start} by original name)')
+                        stop = True
+                        break
+                    vals = {inv.get(nm, nm): float(v) for nm, v in res.get_beta_values().items()}
+                    if sorted(vals) != sorted(free_orig) or not all(abs(vals[o] - want[o]) <= 1e-4 * max(1.0, abs(want[o])) for o in free_orig):
+                        bad('estimate-attached-to-wrong-name', f'started from the file {pairs}: estimates by original name {vals}, expected {want}')
+                        stop = True
+                        break
+                    if not file_ok(on_file, f'started from the file {pairs}'):
+                        stop = True
+                        break
+                if stop:
+                    break
+        # ---- (b) round trip between two models that meet the parameters in different orders
+        for o1, o2 in itertools.permutations(orders, 2):
+            key = ('roundtrip', sk, r, statuses, o1, o2)
+            try:
+                with _scratch():
+                    model(o1).estimate()
+                    on_file = read_iter_file('__c03r.iter')
+                    res2 = model(o2).estimate()
+                    on_file2 = read_iter_file('__c03r.iter')
+            except Exception as e:
+                rec.case(key, ('raised', type(e).__name__), outcome='raised')
+                bad(f'estimate-from-file-raised-{type(e).__name__}', f'round trip {o1}->{o2}: {str(e)[:200]}')
+                continue
+            init2 = float(res2.data.initLogLike)
+            rec.case(key, (sk, r, statuses, o1, o2, round(init2, 6)), outcome=('roundtrip', len(fixed_orig)))
+            if not file_ok(on_file, f'first model (term order {o1})') or not file_ok(on_file2, f'second model (term order {o2})'):
+                continue
+            params = dict(fixedvals)
+            params.update({inv[nm]: v for nm, v in on_file.items()})
+            want_init = sum(ref_values(canonical, params))
+            if not close(init2, want_init, 1e-8):
+                bad('restart-from-iteration-file-not-by-name', f'a model (term order {o2}) estimated in the directory where the same model '
+                    f'(term order {o1}) left {on_file} starts at log likelihood {init2!r}; at these values by name it is {want_init!r}')
+    rec.sample(dict(part='iterfile', skeleton=sk, renaming=mapping))
 
 
 def _duplicates(rec):
@@ -758,6 +1116,8 @@ def replay(case):
         _history(case, rec)
     elif case['part'] == 'setvalues':
         _setvalues(case, rec)
+    elif case['part'] == 'iterfile':
+        _iterfile(case, rec)
     elif case['part'] == 'exotic':
         # in a child process: a name the engine cannot parse may take the process down
         import multiprocessing as mp
